@@ -443,3 +443,32 @@ def _endpoint(D, e):
     if not P.pins:
         return None
     return I.pins[P.pins[e[3] % len(P.pins)]]
+
+
+def example_cases(tier, quick_limit=10000, thorough_limit=40000, formats=("EDIF_netlists", "verilog_netlists")):
+    """bundled example netlists as fixed cases {"example": "<dir>/<file>"}"""
+    import glob
+    import os
+
+    repo = os.environ.get("VERIF_REPO", "/repo")
+    limit = quick_limit if tier == "quick" else thorough_limit
+    out = []
+    for d in formats:
+        for f in sorted(glob.glob(os.path.join(repo, "example_netlists", d, "*.zip"))):
+            if 200 < os.path.getsize(f) <= limit:
+                out.append({"example": "%s/%s" % (d, os.path.basename(f))})
+    return out
+
+
+def load_example(case):
+    """-> netlist or None (the readers' own failures are decided by C05/C06/C18)"""
+    import os
+
+    import spydrnet as sdn
+
+    repo = os.environ.get("VERIF_REPO", "/repo")
+    try:
+        return sdn.parse(os.path.join(repo, "example_netlists", case["example"]))
+    except Exception:  # noqa
+        sdn.namespace_manager.default = "DEFAULT"
+        return None
